@@ -4,6 +4,7 @@ from harness import common
 from harness.common import spec
 
 META = {
+    'tier_note': 'quick and thorough use the same (thorough) bounds for this property',
     'level': 'model_checking',
     'claim': 'Inductive step lemma: from an arbitrary switch state, for every API operation in the bound '
              '(constructing each class with defaults, marshal, unmarshal of valid and of arbitrary bytes '
@@ -341,6 +342,8 @@ def body(n, k):
 
 
 def partitions(tier, seed):
+    # the thorough bounds of this property exhaust in about a minute: the quick tier uses them too
+    tier = 'thorough'
     q = tier == 'quick'
     parts = []
     for mode in (0, 1):
